@@ -2553,6 +2553,21 @@ class Lowerer:
         if key.startswith('std::atomic<'):
             self.need_record(bt)
             self.note('std::atomic operation %s lowered sequentially (seq_cst, single thread)' % name)
+            if self.spec.get('atomic_hooks'):
+                # rely/guarantee units: a hook runs immediately BEFORE every atomic operation (the points where other
+                # threads' steps can interleave under the seq_cst model); the spec defines what interference it models
+                self.note('ATOMIC_ACCESS_HOOK() emitted before every std::atomic operation')
+                inner = self._atomic_op(e, name, obj, args)
+                return '(ATOMIC_ACCESS_HOOK(), %s)' % inner
+            return self._atomic_op(e, name, obj, args)
+        hook = getattr(self, 'ext_builtin_method', None)
+        if hook:
+            r2 = hook(e, me, base, obj, args)
+            if r2 is not None:
+                return r2
+        raise Unsupported('method %s on external type %s at %s' % (name, key, where(e)))
+
+    def _atomic_op(self, e, name, obj, args):
             if name == 'load' or name.startswith('operator '):
                 return '(%s)->_v' % obj
             if name == 'operator=' and len(args) == 1:
@@ -2578,12 +2593,7 @@ class Lowerer:
                                 'static inline _Bool atomic_cas_%s(%s* p, %s* exp, %s des) { _Bool ok; __CPROVER_atomic_begin(); if (*p == *exp) { *p = des; ok = 1; } else { *exp = *p; ok = 0; } __CPROVER_atomic_end(); return ok; }' %
                                 (mangle(ct), ct, ct, ct))
                 return '%s(&(%s)->_v, %s, %s)' % (h, obj, self.addr(args[0]), self.expr(args[1]))
-        hook = getattr(self, 'ext_builtin_method', None)
-        if hook:
-            r2 = hook(e, me, base, obj, args)
-            if r2 is not None:
-                return r2
-        raise Unsupported('method %s on external type %s at %s' % (name, key, where(e)))
+            raise Unsupported('std::atomic method %s at %s' % (name, where(e)))
 
     # ---- output
     def emit(self):
